@@ -96,7 +96,7 @@ def fbits(r):
 def gen_content(r, layout, big=False):
     """a well-formed content: POINT/ANALOG groups with consistent counts, extra groups/params of every type and shape"""
     np_ = r.choice([0, 1, 2, 3, 5] if not big else [54, 255])
-    nch = r.choice([0, 0, 1, 2, 4] if not big else [16, 64])
+    nch = r.choice([0, 0, 1, 2, 4] if not big else [16, 104, 64, 104])     # 104: unlabeled channels with three-digit indices
     nsub = r.choice([1, 2, 3, 5]) if nch else r.choice([0, 1])
     nfr = r.choice([0, 1, 2, 3, 6] if not big else [50, 300])
     if np_ == 0 and nch == 0: nfr = 0
@@ -125,7 +125,7 @@ def gen_content(r, layout, big=False):
     if r.random() < 0.8: params.insert(3, (pid, b"DATA_START", True, "I", [], [0], b""))
     analog_empty = (nch == 0 and r.random() < 0.5)
     if not analog_empty:
-        nal = r.choice([nch, nch, max(nch - 1, 0), nch + 1])
+        nal = r.choice([nch, nch, max(nch - 1, 0), nch + 1]) if nch < 100 else r.choice([3, 3, nch])
         alabels = [b"CH%d" % i for i in range(nal)]
         params += [(aid, b"USED", True, "I", [], [nch], b""), (aid, b"RATE", True, "F", [], [F(arate)], b""),
                    (aid, b"LABELS", False, "C", [5, nal], alabels, b""), (aid, b"SCALE", False, "F", [nch], [F(1.0)] * nch, b""),
